@@ -17,7 +17,7 @@ def register(PROPS):
                  'Second epoch: from every distinct crash-point image (and the completed one) the restarted daemon is given, for each task it scheduled, '
                  'a CANCEL by its owner or a replacement by a small task, and checkpoints; memory must show exactly the restarted set with that change, '
                  'every live queue file must be ONE complete calendar (nothing before its BEGIN or behind the END that closes it), and a further restart '
-                 'on that spool must schedule exactly that set (what an interrupted checkpoint leaves behind - temp files - must not leak into later ones).  The same is asked of the daemon that lives on after an injected fault: one more command, an undisturbed checkpoint, files and a restart are judged for every distinct (spool, queue) pair a fault leaves.  Geometry: one task of about 4.7 kB with a command line of every length 1..1000, final checkpoint, the queue file must be one complete calendar of printable lines no longer than the reader takes, holding every address and file name that was sent, and a restart must schedule the task.  Two linear histories have a job RUNNING at the clean shutdown (its task cancelled just before, or left alone): the final checkpoint must hold exactly what is queued.  ADD with the owner spelled as the login name of the submitter is in the alphabet.  The dump-everybody path (3 users x 7 tasks, 18 change notes) is run with every spool call failing once.  A separate '
+                 'on that spool must schedule exactly that set (what an interrupted checkpoint leaves behind - temp files - must not leak into later ones).  The same is asked of the daemon that lives on after an injected fault: one more command, an undisturbed checkpoint, files and a restart are judged for every distinct (spool, queue) pair a fault leaves; and with no further command at all, a clean shutdown: its undisturbed final checkpoint must bring every acknowledged change to the spool, also those whose checkpoint failed before.  Geometry: one task of about 4.7 kB with a command line of every length 1..1000, final checkpoint, the queue file must be one complete calendar of printable lines no longer than the reader takes, holding every address and file name that was sent, and a restart must schedule the task.  Two linear histories have a job RUNNING at the clean shutdown (its task cancelled just before, or left alone): the final checkpoint must hold exactly what is queued.  ADD with the owner spelled as the login name of the submitter is in the alphabet.  The dump-everybody path (3 users x 7 tasks, 18 change notes) is run with every spool call failing once.  A separate '
                  'configuration drives 15, 16, 17, 18, 40 and 100 users through the "dump everybody" path (from 17 on it has to enlarge its list of open files half-way), also under ASan; one user with 150, 200, 257 and 290 tasks (the UID table overflows into its further levels) must get every UID back under its own name after a restart; six tasks whose text fields carry iCalendar escapes (\\n, \\,, \\;, \\\\ followed by text that looks like calendar structure or X-ECHS-OWNER/SETUID lines) must leave a file of well-formed content lines that restarts to the accepted UIDs under their owner and nothing else.',
         'note': 'Crash model is process death at a system-call boundary (as the property states): no fsync/power-loss or torn-sector semantics.  '
                 'Trusted: the in-memory spool of harness/daemon/hx.h and the map model in e2_chkpt.c.  Time does not advance in these histories.',
